@@ -16,10 +16,15 @@ def _models(c, tier):
     ok = dict(workers=wk, timeout=1500)
     cex = dict(workers=2, timeout=600, coverage=False, expect="violation")
     jobs = [
-        # all interleavings, T=2 x M=4, one deviation (transposition / gap / duplicate) in one track
-        (MC, "ReceiverImpl_sync_w8_quick.cfg", dict(required_actions=("Process",), **ok)),     # usual arrival order: every clause
-        (MC, "ReceiverImpl_all_quick.cfg", dict(required_actions=("Process", "Choose"), **ok)),  # windows 2,3,8: listed / newest
-        # design counterexamples of the algorithm as written (one per defect; verdicts come from the replay)
+        # the CURRENT code (all fix flags TRUE): every interleaving of T=2 x M=4 with one deviation (transposition / gap /
+        # duplicate) in one track, windows 2/3/8, and T=3 x M=4 with a late track: every clause incl. NoPanic
+        (MC, "ReceiverImpl_all_quick.cfg", dict(required_actions=("Process", "Choose"), **ok)),
+        (MC, "ReceiverImpl_late_quick.cfg", dict(required_actions=("Process", "Register"), **ok)),
+        # still open in the current code: storage is not bounded (orphan files)
+        (MC, "ReceiverImpl_cex_orphan.cfg", dict(expect_violated=("BoundedFiles",), **cex)),
+        # the algorithm as originally written (fix flags FALSE): its positive control and the documented design
+        # counterexamples, one per repaired defect
+        (MC, "ReceiverImpl_asw_sync_w8_quick.cfg", dict(required_actions=("Process",), **ok)),
         (MC, "ReceiverImpl_cex_bufadd.cfg", dict(expect_violated=("NoPanicBufAdd",), **cex)),
         (MC, "ReceiverImpl_cex_ctradd_shrink.cfg", dict(expect_violated=("NoPanicCtrAdd",), **cex)),
         (MC, "ReceiverImpl_cex_jump.cfg", dict(expect_violated=("NoPanicCtrAdd",), **cex)),
@@ -33,7 +38,6 @@ def _models(c, tier):
     if tier == "thorough":
         jobs += [
             (MC, "ReceiverImpl_gendev.cfg", dict(workers=1, coverage=False, timeout=1500)),
-            (MC, "ReceiverImpl_t3m5_sync_w8_thorough.cfg", dict(required_actions=("Process",), **ok)),
             (MC, "ReceiverImpl_t3m5_all_thorough.cfg", dict(required_actions=("Process",), **ok)),
             (MC, "ReceiverImpl_t3late_thorough.cfg", dict(required_actions=("Process", "Register"), **ok)),
             (MC, "ReceiverImpl_t2m5_any_thorough.cfg", dict(required_actions=("Process",), **ok)),
